@@ -3,8 +3,7 @@ import MxModel.Proofs.EditMachineWF
 # Admissible histories from source-level conditions; the example model
 
 `admissible_of_sources`: for sources that are `NsNoCatch`, `NsScoped` and call nothing, EVERY history
-whose `del space` / `rename_cells` steps pass the coverage check (`checkOps`, decidable) is
-admissible – the regime hypotheses of the history theorems are then properties of the sources.
+is admissible – the regime hypotheses of the history theorems are then properties of the sources.
 
 The example (`eP`, `eOps`): `Base.f = y * 2`, `Base.y = 1`, `Sub(Base)` overriding `y = 10`;
 `Sub.f()` is 20 and `Base.f()` is 2; `Base.f` is redefined as `y * 3`; `Sub.f()` is 30.
@@ -28,23 +27,17 @@ theorem alloc_step (P : Params) (w : W) (op : Op) (h : AllocOK w.tabs w.sm) :
   | clear q n => exact h
   | clearAll q n => exact h
 
-/-- every step is of a kind whose coverage is proved, or passes the check in its state -/
-def checkOps (P : Params) : W → List Op → Bool
-  | _, [] => true
-  | w, op :: ops => (Proved op || stepCovered P w op) && checkOps P (step P w op) ops
-
 theorem admissible_of_sources (P : Params) (lt : Node → Node → Prop)
     (hnc : ∀ v key, NsNoCatch (P.srcOf v key)) (hsc : ∀ v key, NsScoped (P.srcOf v key))
     (hcalls : ∀ v key, NsNoCalls (P.srcOf v key)) :
-    ∀ (ops : List Op) (w : W), AllocOK w.tabs w.sm → checkOps P w ops = true → Admissible P lt w ops := by
+    ∀ (ops : List Op) (w : W), AllocOK w.tabs w.sm → Admissible P lt w ops := by
   intro ops
   induction ops with
-  | nil => intro w _ _; trivial
+  | nil => intro w _; trivial
   | cons op rest ih =>
-    intro w ha hc
-    simp only [checkOps, Bool.and_eq_true, Bool.or_eq_true] at hc
+    intro w ha
     have ha' := alloc_step P w op ha
-    exact ⟨hc.1, wf_envOf P _ _ lt ha' hnc hsc (ranked_envOf_noCalls P _ _ lt hcalls), ih _ ha' hc.2⟩
+    exact ⟨wf_envOf P _ _ lt ha' hnc hsc (ranked_envOf_noCalls P _ _ lt hcalls), ih _ ha'⟩
 
 /-! ## the example -/
 
@@ -97,11 +90,11 @@ theorem eP_noCalls (v : Nat) (key : Key) : NsNoCalls (eP.srcOf v key) := by
   simp only [eP]
   split <;> exact nsNoCalls_readN _ _ _ _ (fun o => (mulK_ok _ o).2.2) (nsNoCalls_raise _) (nsNoCalls_raise _)
 
-/-- every history over the example's sources that passes the check is admissible -/
-theorem eP_admissible (ops : List Op) (h : checkOps eP {} ops = true) : Admissible eP idLt {} ops :=
-  admissible_of_sources eP idLt eP_noCatch eP_scoped eP_noCalls ops {} allocOK_empty h
+/-- every history over the example's sources is admissible -/
+theorem eP_admissible (ops : List Op) : Admissible eP idLt {} ops :=
+  admissible_of_sources eP idLt eP_noCatch eP_scoped eP_noCalls ops {} allocOK_empty
 
-theorem eOps_admissible : Admissible eP idLt {} eOps := eP_admissible eOps (by decide)
+theorem eOps_admissible : Admissible eP idLt {} eOps := eP_admissible eOps
 
 /-- a history with deletions: `Base.f` is deleted after `Sub.f()` was evaluated; then `Sub` is
 given a cells `f` of its own, `Base` is deleted as a whole -/
@@ -116,6 +109,6 @@ def dOps : List Op := [
   .eval ["Sub"] "f" [],
   .struct (.delSpace ["Base"])]
 
-theorem dOps_admissible : Admissible eP idLt {} dOps := eP_admissible dOps (by decide)
+theorem dOps_admissible : Admissible eP idLt {} dOps := eP_admissible dOps
 
 end MxModel.Edit
